@@ -44,3 +44,10 @@ def run(ctx):
     from ..rules_access import check_foreign_attr_writes
 
     check_foreign_attr_writes(ctx, ctx.ledger, "C10.vectorString.frozen", ('vector',))
+
+    # as_json() itself: it must return for every accepted vector (there is no document otherwise) and
+    # be a function of the object (no cache keyed on ==, no state kept between calls)
+    from ..rules_access import check_accessors
+
+    for v_ in (2, 3, 4):
+        check_accessors(ctx, ctx.ledger, v_, rules=('total',), prefix="C10.total", only=("as_json",))
